@@ -2,7 +2,7 @@ CONSTANTS
  Confs <- MCConfs
  FixWaitErr = TRUE
  Reduce = FALSE
- MCShapes = {"img", "dup", "idx2", "nested", "docker", "bentry", "empty", "inline"}
+ MCShapes = {"img", "dup", "idx2", "nested", "docker", "bentry", "empty", "inline", "dupentry", "sha512"}
  MCPairs = {"tworeg", "samereg", "samerepo", "reg2dir", "dir2reg", "dir2dir"}
  MCOpts <- MCOptsDefault
  MCFeats <- MCFeatsMount3
